@@ -4,6 +4,7 @@
   level — every crash point inside the truncation and in the appends that follow it — is carried by the crash
   suite's ghost-state monitors on the real code (see DESIGN §6 C04).
 -/
+import RaftWal.Generated.WalLogic
 import RaftWal.Proofs.WalRefine
 import RaftWal.Generated.Conc
 import RaftWal.Proofs.CrashCorollaries
@@ -84,5 +85,12 @@ theorem truncation_atomic_any_crash (d : Crash.Disk) (hq : Crash.QuiescentS d) (
     (Crash.absLog d' = Crash.absLog d ∨ Crash.absLog d' = Crash.specApply (Crash.absLog d) op) ∧
     (Crash.ackPos (Crash.prog d op) < k → Crash.absLog d' = Crash.specApply (Crash.absLog d) op) :=
   Crash.truncation_atomic d hq op htr hok k c d1 d' hr ho
+
+/-- which segments a truncation keeps, as wal.go decides it (read from the source on every run): a tail truncation keeps
+    every segment whose first index is at or below the new last index; a head truncation keeps the tail if it holds the new
+    first index and a sealed segment if its last index is at or above it -/
+theorem truncation_scans_from_source :
+    Generated.truncateTailStops = ["seg.BaseIndex <= newMax"] ∧
+    Generated.truncateHeadStops = ["newState.lastIndex() >= newMin", "seg.MaxIndex >= newMin"] := by decide
 
 end RaftWal.C04
